@@ -150,11 +150,19 @@ fn entries(st: &BootstrapCacheStore) -> Vec<(PeerId, Multiaddr, u32, u32, System
     st.get_all_addrs().filter_map(|b: &BootstrapAddr| b.peer_id().map(|p| (p, b.addr.clone(), b.success_count, b.failure_count, b.last_seen))).collect()
 }
 
+/// "A dialable address carrying a peer id": one IPv4 host, one transport (udp, optionally quic-v1; or tcp, optionally ws)
+/// and one peer id, in that order and nothing else — in particular no second peer id (a relayed address stripped of its
+/// `/p2p-circuit` names two peers and reaches neither) and no protocol twice.
 fn well_formed(a: &Multiaddr) -> bool {
-    let has_ip4 = a.iter().any(|p| matches!(p, Protocol::Ip4(_)));
-    let has_tr = a.iter().any(|p| matches!(p, Protocol::Udp(_) | Protocol::Tcp(_)));
-    let has_id = a.iter().any(|p| matches!(p, Protocol::P2p(_)));
-    has_ip4 && has_tr && has_id
+    let ps: Vec<Protocol> = a.iter().collect();
+    let tail_ok = |rest: &[Protocol]| matches!(rest, [Protocol::P2p(_)]);
+    match ps.as_slice() {
+        [Protocol::Ip4(_), Protocol::Udp(_), Protocol::QuicV1, rest @ ..] => tail_ok(rest),
+        [Protocol::Ip4(_), Protocol::Udp(_), rest @ ..] => tail_ok(rest),
+        [Protocol::Ip4(_), Protocol::Tcp(_), Protocol::Ws(_), rest @ ..] => tail_ok(rest),
+        [Protocol::Ip4(_), Protocol::Tcp(_), rest @ ..] => tail_ok(rest),
+        _ => false,
+    }
 }
 
 fn expired(ls: SystemTime, expiry: Duration) -> bool {
@@ -177,7 +185,11 @@ impl Sys {
         for (p, a, _, _, _) in &es {
             *per_peer.entry(p.to_string()).or_default() += 1;
             if !well_formed(a) {
-                fails.push(Fail::new("well-formed-addresses", "memory", format!("after {after}: the cache holds {a}, which lacks ip4 / transport / peer id")));
+                fails.push(Fail::new("well-formed-addresses", "memory", format!("after {after}: the cache holds {a}, which is not host / transport / one peer id")));
+            }
+            // the entry is filed under the peer its address names
+            if !matches!(a.iter().last(), Some(Protocol::P2p(id)) if id == *p) {
+                fails.push(Fail::new("well-formed-addresses", "filed-under-another-peer", format!("after {after}: {a} is filed under peer {p}")));
             }
         }
         if self.st.peer_count() > self.cfg.max_peers {
